@@ -2,5 +2,9 @@ LEVELS = {}
 NOT_DECIDED = {
     'C12': ['how often the main loop polls the timers (scheduling granularity) is not decided: clauses are stated "at the next call"'],
     'C09': ['route classification prefix of messages() and next-hop grouping of packed_reach_attributes: bounded only (segment contracts abstract them)', 'NLRI encoders by assumed contract here (their own contracts belong to C01/C15)'],
+    'C02': ['NLRI / MP / AS_PATH decoders and JSON rendering: bounded only'],
+    'C03': ['wall-clock proportionality: only termination, linear iteration bounds and depth are decided; a bounded time guard complements'],
+    'C08': ['RFC 7606 class per attribute type: uninterpreted in the deductive part, live class flags in the bounded part'],
+    'C19': ['frame scan over all decode-reachable functions not built; Capability.klass kls.ID mutation open'],
     'C06': ['the kernel delivers the byte stream faithfully (recv callee contract); interference from other asyncio tasks at await is not decided'],
 }
